@@ -360,7 +360,7 @@ func vfNormTrace(sim *vfSim, v vfWrapVariant, w *vfWork) []string {
 		out = append(out, fmt.Sprintf("%v %s %s%s", g.t, strings.Join(g.lines, " | "), g.snap[0], g.snap[1]))
 	}
 	// deliveries
-	for _, run := range w.runs {
+	for _, run := range w.allRuns() {
 		run.mu.Lock()
 		var sb strings.Builder
 		fmt.Fprintf(&sb, "reads dir%d sid%d:", run.cfg.Dir, run.cfg.SID)
@@ -441,7 +441,7 @@ func vfRunWrapVariant(t *testing.T, spec *vfSpec, res *vfRes, v vfWrapVariant, n
 				crossed = true
 			}
 		}
-		for _, run := range w.runs {
+		for _, run := range w.allRuns() {
 			prop := "C01"
 			if run.cfg.RelType != ReliabilityTypeReliable || run.cfg.Unordered {
 				prop = "C06"
